@@ -455,7 +455,7 @@ void AppendRequest(Stream& st, const Op& op, const std::vector<Cred>& creds)
             sizes.push_back(sz);
             p += sz;
         }
-        const int sub = bk == B_CHUNKED_FLAW ? (int)r.pick({2, 2, 3, 2, 1, 1, 1, 1, 2, 2, 4, 1}) : -1;
+        const int sub = bk == B_CHUNKED_FLAW ? (int)r.pick({2, 2, 3, 2, 1, 1, 1, 1, 2, 2, 4, 1, 3}) : -1;
         const size_t flaw_at = r.below(sizes.size() + 1);
         size_t p = 0;
         bool cut = false;
@@ -479,6 +479,13 @@ void AppendRequest(Stream& st, const Op& op, const std::vector<Cred>& creds)
                 case 8: wire_body += Hex((i < sizes.size() ? sizes[i] : 0) + r.range(1, 40), false) + eol(); break; // declares more than it carries: swallows what follows
                 case 9: break; // handled in trailers
                 case 10: wire_body += "10" + eol() + "no auto updates!" + eol() + "1fffff1" + eol(); body = body.substr(0, p) + "no auto updates!"; cut = true; break;
+                case 12: {
+                    // a size that fits 64 bits but is close to 2^64 (the running total would wrap), preferably after a non-empty chunk
+                    static const char* huge[] = {"ffffffffffffffff", "fffffffffffffff0", "FFFFFFFFFFFFFFFE", "8000000000000000", "ffffffffffff0000"};
+                    wire_body += std::string(huge[r.below(5)]) + eol();
+                    cut = true;
+                    break;
+                }
                 default: wire_body += std::string(r.range(17, 40), 'f') + eol(); cut = true; break;
                 }
                 if (cut) break;
